@@ -20,13 +20,15 @@ type c16El struct {
 	id      int
 	once    bool
 	loop    int    // >0: v-for over a list of that many items
-	include string // non-empty: <template include=...> instead of an element
+	include string // non-empty: <template include=...> instead of an element (kids = supplied slot content)
+	slot    bool   // <slot></slot>
 	kids    []*c16El
 }
 
 type c16Gen struct {
-	r    *Rng
-	next int
+	r     *Rng
+	next  int
+	slots bool // the file being generated is a component: it may contain <slot>
 }
 
 func (g *c16Gen) tree(depth int, comps []string) []*c16El {
@@ -34,7 +36,15 @@ func (g *c16Gen) tree(depth int, comps []string) []*c16El {
 	n := 1 + g.r.Intn(3)
 	for i := 0; i < n; i++ {
 		if len(comps) > 0 && g.r.Intn(4) == 0 {
-			out = append(out, &c16El{include: Pick(g.r, comps)})
+			inc := &c16El{include: Pick(g.r, comps)}
+			if g.r.Intn(3) == 0 { // content for the component's default slot, written in this file
+				inc.kids = g.tree(0, nil)
+			}
+			out = append(out, inc)
+			continue
+		}
+		if g.slots && g.r.Intn(5) == 0 {
+			out = append(out, &c16El{slot: true})
 			continue
 		}
 		g.next++
@@ -53,7 +63,11 @@ func c16Src(file string, es []*c16El, real bool) string {
 	var sb strings.Builder
 	for _, e := range es {
 		if e.include != "" {
-			fmt.Fprintf(&sb, `<template include="%s"></template>`, e.include)
+			fmt.Fprintf(&sb, `<template include="%s">%s</template>`, e.include, c16Src(file, e.kids, real))
+			continue
+		}
+		if e.slot {
+			sb.WriteString("<slot></slot>")
 			continue
 		}
 		attrs := fmt.Sprintf(` data-m="%d" :data-l="link"`, e.id)
@@ -208,8 +222,10 @@ func runC16(r *Run) {
 	for c := 0; c < n; c++ {
 		g := &c16Gen{r: rr}
 		p := c16Prog{files: map[string][]*c16El{}}
+		g.slots = true
 		p.files["a.vuego"] = g.tree(1, nil)
 		p.files["b.vuego"] = g.tree(1, []string{"a.vuego"})
+		g.slots = false
 		p.files["page.vuego"] = g.tree(2, []string{"a.vuego", "b.vuego", "a.vuego"})
 		entry := Pick(rr, entries)
 		if (entry == "LoadRender" || entry == "RenderFile") && rr.Bool() {
